@@ -61,11 +61,12 @@ func (idk *IdKeeper) update(bndl *bpv7.Bundle) {
 	}
 }
 
-// clean removes states which are older an hour and aren't the epoch time.
+// clean removes states which are older than a day and aren't the epoch time.
 func (idk *IdKeeper) clean() {
 	idk.mutex.Lock()
 
-	var threshold = bpv7.DtnTimeNow() - 60*60*24
+	// DtnTime counts milliseconds
+	var threshold = bpv7.DtnTimeNow() - 24*60*60*1000
 
 	for tpl := range idk.data {
 		if tpl.time < threshold && tpl.time != bpv7.DtnTimeEpoch {
